@@ -7,6 +7,7 @@ MODULE = "cspuz.puzzle.castle_wall"
 FUNC = "solve_castle_wall"
 LOOP = True
 KIND = {"^": 1, "v": 2, "<": 3, ">": 4}
+TIER1 = ("CastleWall", "solve_castle_wall_model")
 
 
 def call(mod, pb):
@@ -86,7 +87,7 @@ def tier1_problems(tier, rng):
     black) of the boards with <= 6 cells in both orientations (1x1 .. 1x6, 6x1, 2x2, 2x3, 3x2: the single-row / single-column
     boards included), a sample of the two-clue layouts of those boards, ~50 random larger and non-square boards (up to 7x7,
     1xN, Nx1, 2xN, Nx2) with clue numbers at and beyond the boundaries (0, the line length, above it, negative, two digits),
-    and malformed problems: height <= 0 or width <= 0 (ValueError), trailing cells / rows of arrow or inside missing
+    boards where every cell is a white / black clue, marks on non-clue cells, and malformed problems: height <= 0 or width <= 0 (ValueError), trailing cells / rows of arrow or inside missing
     (IndexError)"""
     th = tier == "thorough"
     small = [(1, 1), (1, 2), (2, 1), (1, 3), (3, 1), (2, 2), (1, 4), (4, 1), (1, 5), (5, 1), (2, 3), (3, 2), (1, 6), (6, 1)]
@@ -116,6 +117,11 @@ def tier1_problems(tier, rng):
     for (h, w) in [(2, 2), (3, 3), (2, 4), (4, 3)]:
         for sd in (1, 2):
             yield _mk(h, w, {(y, x): ("??", sd) for y in range(h) for x in range(w)})
+    # white / black marks on cells that are NOT clue cells (outside Rules_castle_wall's encoding, theorem hypothesis cw_wf; the
+    # Python posts the is_inside constraint for them all the same, and so does the model)
+    for (h, w) in [(1, 1), (1, 3), (2, 2), (3, 3), (3, 4), (5, 2)]:
+        for _ in range(6 if th else 2):
+            yield _mk(h, w, {(y, x): (rng.choice(["..", "..", "??", ">1"]), rng.choice([0, 1, 2])) for y in range(h) for x in range(w)})
     # malformed: a non-positive dimension -> ValueError (Array2D.__init__ / int_array); both negative is out of scope
     for (h, w) in [(0, 0), (0, 1), (1, 0), (0, 3), (3, 0), (-1, 2), (2, -1), (-1, 0), (0, -3), (-2, 3), (4, -2)]:
         yield {"h": h, "w": w, "arrow": [[".."] * max(w, 0) for _ in range(max(h, 0))],
